@@ -478,6 +478,25 @@ def search(seed, tier):
     b = ops.spherical_laplacian(u, r, th, ph)
     if not torch.allclose(a, b, rtol=1e-6, atol=1e-6):
         found.append(dict(case='ZonalSphericalHarmonicsLaplacian vs spherical_laplacian'))
+    # evaluation points on a CURVE (angles computed from the radius, as along a ray path or a spiral): the basis-space Laplacians are
+    # partial-derivative formulas - the value at a point is the same as with independent angle tensors of equal values
+    net = FCNN(1, 9, hidden_units=(6,))
+    netz = FCNN(1, 3, hidden_units=(6,))
+    netf = FCNN(1, 5, hidden_units=(6,))
+    thc, phc = 0.4 + 0.7 * r, 0.3 + r ** 2 * 0.5
+    thi, phi_ = thc.detach().clone().requires_grad_(), phc.detach().clone().requires_grad_()
+    for nm, op, coeff, dep, ind in (
+            ('HarmonicsLaplacian', FB.HarmonicsLaplacian(max_degree=2), net, (thc, phc), (thi, phi_)),
+            ('ZonalSphericalHarmonicsLaplacian', FB.ZonalSphericalHarmonicsLaplacian(degrees=[0, 1, 3]), netz, (thc, phc), (thi, phi_)),
+            ('FourierLaplacian', FB.FourierLaplacian(max_degree=2), netf, (phc,), (phi_,))):
+        try:
+            a = op(coeff(r), r, *dep)
+            b = op(coeff(r), r, *ind)
+            if not torch.allclose(a, b, rtol=1e-6, atol=1e-6):
+                found.append(dict(case=f'{nm} at points whose angles were computed from the radius differs from the same points with '
+                                  'independent angle tensors', max_abs_diff=float((a - b).abs().max())))
+        except Exception as e:
+            found.append(dict(case=f'{nm} at points whose angles were computed from the radius', error=f'{type(e).__name__}: {e}'))
     # single-function bases and single evaluation points (shapes must stay (n, k))
     for basis, args, k in ((FB.LegendreBasis(max_degree=0), (x,), 1), (FB.ZonalSphericalHarmonics(degrees=[3]), (th, ph), 1),
                            (FB.RealFourierSeries(max_degree=0), (ph,), 1), (FB.RealSphericalHarmonics(max_degree=0), (th, ph), 1)):
